@@ -8,6 +8,8 @@
 use std::io::{self, BufRead, BufWriter, Write};
 
 mod util;
+mod conv;
+mod m_db;
 mod m_filter;
 
 fn main() {
@@ -25,6 +27,7 @@ fn main() {
     let rest = &args[2..];
     let r = match args[1].as_str() {
         "filter" => m_filter::run(&mut input, &mut out, rest),
+        "db" => m_db::run(&mut input, &mut out, rest),
         m => {
             eprintln!("unknown mode {m}");
             std::process::exit(2);
